@@ -377,6 +377,7 @@ func main() {
 	r := gen.New()
 	thorough := gen.Thorough()
 	corpus()
+	corpus2()
 	nFetch, nIter := 600, 150
 	if thorough {
 		nFetch, nIter = 8000, 2000
@@ -419,6 +420,7 @@ func main() {
 		}
 		iterCase(vers[i%3], o, hwm, items, budgets)
 	}
+	expiredCases(r, thorough)
 	readerCases(r, thorough)
 }
 
